@@ -23,6 +23,7 @@ func checkC16(p *core.Prog, r *core.Report) {
 	logFileOrderRule(p, r, "C16/R7")
 	c16R8(p, r)
 	c16R9(p, r)
+	c16R10(p, r)
 }
 
 // reachesRemove: does fn (transitively, by static calls in the module) call os.Remove / os.RemoveAll?
@@ -553,6 +554,16 @@ func logFileOrderRule(p *core.Prog, r *core.Report, rule string) {
 					if !ok || bi.Name() != "append" || len(t.Common().Args) < 2 {
 						return
 					}
+					// the list of append files itself used as the base the snapshot is appended to
+					if base := core.Plain(x.Canon(t.Common().Args[0]).S); strings.Contains(base, "FindAofFiles(") && strings.Contains(base, "#0") && x.Get("snapstore") == "1" {
+						both = true
+						if !bad {
+							bad = true
+							r.Violate(rule, name+": log file list order", x.Pos(), "the snapshot rewrite.aof is appended to the list of append files itself: the list is the read / replay order (newest last), so the snapshot's older records are taken for the newest", x.St.Trace)
+						}
+						return
+					}
+					x.Set("snapstore", "")
 					v = core.Plain(x.Canon(t.Common().Args[1]).S)
 					if !strings.Contains(v, "FindAofFiles(") {
 						return
@@ -562,6 +573,9 @@ func logFileOrderRule(p *core.Prog, r *core.Report, rule string) {
 				}
 				switch {
 				case strings.Contains(v, "FindAofFiles(") && strings.Contains(v, "#1"):
+					if _, isStore := x.Ins.(*ssa.Store); isStore {
+						x.Set("snapstore", "1")
+					}
 					if x.Get("files") == "1" {
 						both = true
 						if !bad {
@@ -740,5 +754,64 @@ func c16R9(p *core.Prog, r *core.Report) {
 	}
 	if n == 0 {
 		r.Fail("C16/R9: rewriteAofFiles never computes its input list")
+	}
+}
+
+// c16R10: the compaction keeps a record only when LockDB.HasLock finds the
+// hold in the tables. At start-up the tables are filled asynchronously by the
+// replay channels, so the start-up compaction may be started only after the
+// replay has been waited for (WaitFlushAofChannel): started before, it judges
+// holds that are not replayed yet dead, drops their records, retires the
+// files they came from - and the next restart has lost them.
+func c16R10(p *core.Prog, r *core.Report) {
+	const rule = "C16/R10"
+	r.Rule(rule, "every start of the compaction (go rewriteAofFiles) in a function that loads the log is dominated by a WaitFlushAofChannel call", 2)
+	n := 0
+	for _, fn := range p.FuncsIn("server") {
+		if fn.Blocks == nil {
+			continue
+		}
+		var waits, starts []ssa.Instruction
+		loads := false
+		for _, b := range fn.Blocks {
+			for _, ins := range b.Instrs {
+				switch x := ins.(type) {
+				case *ssa.Go:
+					if c := x.Call.StaticCallee(); c != nil && c.Name() == "rewriteAofFiles" {
+						starts = append(starts, ins)
+					}
+				case *ssa.Call:
+					if c := x.Call.StaticCallee(); c != nil {
+						switch c.Name() {
+						case "WaitFlushAofChannel":
+							waits = append(waits, ins)
+						case "LoadAofFiles", "LoadAofFile":
+							loads = true
+						}
+					}
+				}
+			}
+		}
+		if !loads {
+			continue
+		}
+		for i, st := range starts {
+			n++
+			key := fmt.Sprintf("%s: start of the compaction#%d", core.FuncName(fn), i+1)
+			ok := false
+			for _, w := range waits {
+				if instrDominates(w, st) {
+					ok = true
+				}
+			}
+			if ok {
+				r.Hold(rule, key, p.InstrPos(st), "after WaitFlushAofChannel")
+			} else {
+				r.Violate(rule, key, p.InstrPos(st), "the start-up compaction is started before the replay of the loaded records has been waited for: it asks the tables about holds that are not replayed yet, drops their records and retires the files - the next restart has lost them", nil)
+			}
+		}
+	}
+	if n == 0 {
+		r.Fail("C16/R10: no start of the compaction found in a loading function")
 	}
 }
